@@ -367,17 +367,9 @@ func runC18_5(c *Ctx) {
 			}
 			n++
 			dom := false
-			for _, b := range fn.Blocks {
-				ifi, isIf := b.Instrs[len(b.Instrs)-1].(*ssa.If)
-				if !isIf {
-					continue
-				}
-				// the condition must be exactly `field == nil` (not a disjunction block that other conditions also reach)
-				bo, isB := ifi.Cond.(*ssa.BinOp)
-				if !isB || bo.Op != token.EQL || !isFieldLoad(bo.X, olN, fIdx) || !IsNilConst(bo.Y) {
-					continue
-				}
-				if BlockDominatesInstr(b.Succs[0], st) {
+			// the condition must be exactly `field == nil` (not a disjunction block that other conditions also reach)
+			for _, e := range NilCmpEdges(fn, func(v ssa.Value) bool { return isFieldLoad(v, olN, fIdx) }) {
+				if BlockDominatesInstr(e.Nil, st) {
 					dom = true
 				}
 			}
